@@ -176,7 +176,7 @@ def encoder_settings(tier, seed):
     one_ = (('list', (1,)), False)
     opt_ = (('range', 0, 1), False)
     any_ = (('min', 0), False)
-    for n in (range(3, 14) if tier == 'quick' else range(3, 26)):
+    for n in (range(3, 14) if tier == 'quick' else range(3, 18)):
         sp.append(([one_], [opt_] * n, (), 'present-only'))
     wide = [([any_], [opt_] * 3, ()), ([opt_, opt_], [opt_] * 3, ()), ([any_, any_], [opt_, opt_], ()),
             ([(('range', 0, 2), True)], [(('range', 0, 2), True)] * 2, ()), ([one_, one_], [any_] * 3, ()),
